@@ -6,10 +6,13 @@ import RV.Base.Proto
     reset <cfg>              -> ok    cfg ∈ ds | dsu | cg | cgd | g | view
     quad s p o <g>           -> ok    (Memory.add: indexes the quad and registers the graph)
     reg <g>                  -> ok    (Memory.add_graph)
-    read pure                -> ok    iteration / pattern / len / flat serializers / paths / cbd
+    read pure                -> ok    iteration / pattern / len / paths
+    read flat | turtle | longturtle <canon 0|1> | xml | prettyxml <max_depth> | patch | patchtarget
+    read skolemize | qname <term> | cbd <node>
     read copy                -> ok    compare functions, set operators (work on copies)
     read ctxs | trig | jsonld | jsonldbuggy | graphs
-    read query <gvar 0|1> <f:g|n:g,…|-> <load 0|1>     dataset clause in order; i50/i51 = loadable documents
+    read query <gvar 0|1> <f:g|n:g,…|-> <load 0|1> <kind s|a|c|d> <GRAPH consts g,…|->
+                                      dataset clause in order; i50/i51 = loadable documents
     read contains4 <g> <how 0|1> | quads4 <g> <how> | triples4 <g> <how> | triplesctx <g>
     foreign <g> s p o        -> ok    `_graph(foreign graph)`: the documented WRITE (not a ReadOp)
     obs                      -> `s,p,o,g … | names…`   (unsorted; the harness sorts both sides)
@@ -28,6 +31,18 @@ def gname? (s : State) (w : String) : Option GName :=
   else if w.startsWith "i" then (w.drop 1).toNat?.map GName.iri
   else if w.startsWith "b" then (w.drop 1).toNat?.map GName.bnode
   else none
+
+def gnames? (s : State) (w : String) : Option (List GName) :=
+  if w = "-" then some [] else (w.splitOn ",").mapM (gname? s)
+
+def qkind? (w : String) : Option QKind :=
+  if w = "s" then some .select else if w = "a" then some .ask
+  else if w = "c" then some (.construct (fun r => r.map (fun x => (x, 10, x))))
+  else if w = "d" then some (.describe (fun x => 4 ≤ x && x ≤ 9))
+  else none
+
+/-- namespaces as the driver sees them: every predicate / class id is its own namespace -/
+def drvNs (t : Nat) : Option Nat := if 10 ≤ t && t ≤ 29 then some t else none
 
 def clause? (s : State) (w : String) : Option Clause :=
   if w.startsWith "f:" then (gname? s (w.drop 2).toString).map Clause.dflt
@@ -49,11 +64,11 @@ def showState (s : State) : String :=
     ++ " | " ++ " ".intercalate (s.graphNames.map (showG s))
 
 def init? (cfg : String) : Option State :=
-  if cfg = "ds" ∨ cfg = "view" then some ⟨[], [], false, true, .dflt⟩
-  else if cfg = "dsu" then some ⟨[], [], true, true, .dflt⟩
-  else if cfg = "cg" then some ⟨[], [], true, false, .bnode 999⟩
-  else if cfg = "cgd" then some ⟨[], [], true, false, .dflt⟩
-  else if cfg = "g" then some ⟨[], [], false, false, .iri 999⟩
+  if cfg = "ds" ∨ cfg = "view" then some ⟨[], [], false, true, .dflt, []⟩
+  else if cfg = "dsu" then some ⟨[], [], true, true, .dflt, []⟩
+  else if cfg = "cg" then some ⟨[], [], true, false, .bnode 999, []⟩
+  else if cfg = "cgd" then some ⟨[], [], true, false, .dflt, []⟩
+  else if cfg = "g" then some ⟨[], [], false, false, .iri 999, []⟩
   else none
 
 def ctxArg (g : GName) (how : String) : Option CtxArg :=
@@ -65,12 +80,24 @@ def readOp? (s : State) : List String → Option ReadOp
   | ["pure"] => some .iter
   | ["copy"] => some (.canonical s.dname id)
   | ["ctxs"] => some .serializeCtxs
-  | ["trig"] => some .serializeTrig
+  | ["trig"] => some (.serializeTrig drvNs)
+  | ["flat"] => some .serializeFlat
+  | ["turtle"] => some (.serializeTurtle drvNs)
+  | ["longturtle", c] => some (.serializeLongTurtle drvNs (c = "1") (fun ts => ts.map (fun t => (t.1 + 1000, t.2.1, t.2.2))))
+  | ["xml"] => some (.serializeXml drvNs)
+  | ["prettyxml", d] => d.toNat?.map (fun d => .serializePrettyXml drvNs 12 d)
+  | ["patch"] => some .serializePatch
+  | ["patchtarget"] => some (.serializePatchTarget (((2, 10, 3), .iri 1) :: ((3, 15, 20), .dflt) :: s.quads.drop 1))
+  | ["skolemize"] => some (.skolemize (· + 1000))
+  | ["qname", t] => t.toNat?.map (fun t => .qname drvNs t)
+  | ["cbd", n] => n.toNat?.map (fun n => .cbd n (fun x => 4 ≤ x && x ≤ 9))
   | ["jsonld"] => some .serializeJsonld
   | ["graphs"] => some .graphs
-  | ["query", gv, cl, lg] => do
+  | ["query", gv, cl, lg, kind, consts] => do
     let cl ← clauses? s cl
-    pure (.query ⟨cl, gv = "1", lg = "1", harnessDocs, fun _ => []⟩)
+    let consts ← gnames? s consts
+    let k ← qkind? kind
+    pure (.query ⟨cl, gv = "1", consts, lg = "1", harnessDocs, fun v => [v.dflt.map (·.1)], k⟩)
   | ["contains4", g, how] => do let g ← gname? s g; let c ← ctxArg g how; pure (.contains4 anyPat c)
   | ["quads4", g, how] => do let g ← gname? s g; let c ← ctxArg g how; pure (.quads4 anyPat c)
   | ["triples4", g, how] => do let g ← gname? s g; let c ← ctxArg g how; pure (.triples4 anyPat c)
@@ -102,4 +129,4 @@ def step (s : State) : List String → State × String
     | none => (s, "bad-op")
   | _ => (s, "bad-op")
 
-def main : IO Unit := RV.Proto.run step (⟨[], [], false, true, .dflt⟩ : State)
+def main : IO Unit := RV.Proto.run step (⟨[], [], false, true, .dflt, []⟩ : State)
